@@ -954,6 +954,24 @@ func init() {
 					}
 				}
 			}
+			// P / B / SP / SI slice headers
+			pbShapes := []int{0, 1, 1 + 2 + 4, 8, 8 + 16, 32, 32 + 64, 32 + 64 + 128 + 2 + 4, 256, 512, 1024, 2048, 2048 + 4096, 2048 + 8192,
+				1 + 2 + 8 + 32 + 64 + 128 + 256 + 1024 + 2048, 4 + 16 + 32 + 128 + 256 + 2048 + 8192 + 16384, 32 + 64 + 16384}
+			if tier == "thorough" {
+				for k := 0; k < 60; k++ {
+					pbShapes = append(pbShapes, (k*2654435761>>5)&0x7fff)
+				}
+			}
+			for _, kind := range []int{0, 5, 1, 6, 3, 4} {
+				for i, sh := range pbShapes {
+					for ci, cl := range []int{0, 1, 1001, 3} {
+						if tier != "thorough" && (i+ci+kind)%2 == 1 {
+							continue
+						}
+						r = append(r, inst(p, "VerifC15PBSlice", itoa(kind), itoa(sh), itoa(cl)))
+					}
+				}
+			}
 			for _, c := range r {
 				if c.MaxWallS == 0 {
 					c.MaxWallS = tierW(tier, 90, 900)
@@ -968,7 +986,7 @@ func init() {
 			return r
 		},
 		Bounds: func(tier string) map[string]interface{} { return map[string]interface{}{} },
-		Covers: []string{"sps compared", "pps compared", "slice compared", "config compared", "sps ext compared", "pps ext compared", "hevc sps compared", "hevc pps compared", "hevc slice compared", "hevc config compared"}, RequireCovers: true,
+		Covers: []string{"sps compared", "pps compared", "slice compared", "config compared", "sps ext compared", "pps ext compared", "pb slice compared", "hevc sps compared", "hevc pps compared", "hevc slice compared", "hevc config compared"}, RequireCovers: true,
 	}
 	propDefs["C13"] = &PropDef{
 		ID:       "C13",
